@@ -19,7 +19,7 @@ RULE = ('case = file-based generated pipeline (JSON/YAML, uses with and without 
         'directory-type or empty result and >=1 task left uncomputed; distinct = hash(files, root, computed subset)')
 REQUIRED = ['migrations', 'migrated_results_loaded', 'uncomputed_tasks_checked', 'dry_runs_checked', 'second_migrations_checked', 'source_trees_checked',
             'multi_config_roots', 'explicit_part_roots', 'explicitly_named_configs', 'directory_results_migrated', 'empty_results_migrated',
-            'linked_directory_results_migrated', 'figure_results_migrated', 'interrupted_resumable_computations_in_source', 'config_object_used_for_a_chain_before_migration']
+            'linked_directory_results_migrated', 'figure_results_migrated', 'interrupted_resumable_computations_in_source', 'intermediate_results_deleted_before_migration', 'config_object_used_for_a_chain_before_migration']
 ASSUMPTIONS = ['the migration function takes no root namespace: roots without namespace only',
                'one config file is not mounted twice (name mode addresses results by config name, two mounts would share a location by design)',
                'newly created EMPTY directories in the source are ignored (inspecting a task creates its directory)']
@@ -71,6 +71,13 @@ def run_one(rng, res: CaseResult):
     with Lab(spec) as lab:
         s1 = [{'op': 'build', 'chain': 'old', 'root': root, 'parameter_mode': False, 'data_dir_name': 'src_data'}]
         s1 += [{'op': 'value', 'chain': 'old', 'task': n, 'data_dir_name': 'src_data'} for n in subset]
+        # the result of an INTERMEDIATE task was deleted on request after its dependants had been computed: the dependants keep their results
+        inter = [n for n in computed if ref.tasks[n]['spec']['data_kind'] != 'memory' and any(d in computed for d in ref.descendants(n))]
+        if inter and rng.random() < 0.35:
+            gone = rng.choice(sorted(inter))
+            s1.append({'op': 'force', 'chain': 'old', 'tasks': [gone], 'via': 'task', 'delete_data': True, 'data_dir_name': 'src_data'})
+            computed.discard(gone)
+            res.count('intermediate_results_deleted_before_migration')
         # a resumable (ContinuesData) task whose computation was started but not finished before the migration: its work directory with
         # the partial output is part of the source tree (and must be left alone)
         unfinished = [n for n in names if n not in computed and ref.tasks[n]['spec']['data_kind'] == 'continues']
